@@ -186,6 +186,7 @@ func c16ItemBytes(name string) []byte {
 }
 
 type c16Run struct {
+	noLoop  bool // the preface was not (completely) sent: the serve loop proper has not started
 	w       *vx.W
 	s       *c15srv
 	goAway  bool
@@ -231,7 +232,7 @@ func (r *c16Run) check(where string) {
 	if s.sc == nil || len(s.panics) > 0 {
 		return
 	}
-	if !s.sc.C15ServeDone() {
+	if !s.sc.C15ServeDone() && !r.noLoop {
 		ch := s.sc.C15ServeProbe()
 		synctest.Wait()
 		select {
@@ -329,10 +330,13 @@ func c16Exec(t testing.TB, w *vx.W, cs c16Case) {
 	case "nosettings":
 		send([]byte(ClientPreface))
 	case "none":
+		r.noLoop = true
 	case "short":
+		r.noLoop = true
 		send([]byte(ClientPreface[:10]))
 		aligned = false
 	case "wrong":
+		r.noLoop = true
 		b := []byte(ClientPreface)
 		b[5] ^= 0x20
 		send(b)
@@ -553,10 +557,14 @@ func TestVerif_C16(t *testing.T) {
 		}, func(w *vx.W, cs c16Case) { c16RunCase(c, w, cs) })
 		vx.Enumerate(c, "floods", opts, func(yield0 func(c16Case) bool) {
 			yield := c15Yield(c, yield0)
+			fscheds, fmodes, fpres := scheds, []string{"-hb-blk", "-hb", "-hw-blk", "-hw"}, [][]string{nil, {"H1o"}, {"H3o"}}
+			if c.Quick() {
+				fscheds, fmodes, fpres = []string{"7540", ""}, []string{"-hb-blk", "-hw"}, [][]string{nil, {"H3o"}}
+			}
 			for _, fl := range []string{"FLOOD:ping", "FLOOD:settings", "FLOOD:rapidreset", "FLOOD:continuation"} {
-				for _, sc := range scheds {
-					for _, mode := range []string{"-hb-blk", "-hb", "-hw-blk", "-hw"} {
-						for _, pre := range [][]string{nil, {"H1o"}, {"H3o"}} {
+				for _, sc := range fscheds {
+					for _, mode := range fmodes {
+						for _, pre := range fpres {
 							if fl == "FLOOD:rapidreset" && len(pre) > 0 && pre[0] == "H3o" {
 								continue // the flood itself starts at stream 1
 							}
@@ -567,7 +575,7 @@ func TestVerif_C16(t *testing.T) {
 								continue
 							}
 							items := append(append([]string(nil), pre...), fl)
-							if !yield(c16Case{Cfg: sc + mode, Pre: "ok", Items: items}) {
+							if !c.Quick() && !yield(c16Case{Cfg: sc + mode, Pre: "ok", Items: items}) {
 								return
 							}
 							if !yield(c16Case{Cfg: sc + mode, Pre: "ok", Items: append(append([]string(nil), items...), "PING")}) {
@@ -582,14 +590,14 @@ func TestVerif_C16(t *testing.T) {
 			yield := c15Yield(c, yield0)
 			for n := 1; n <= seqLen; n++ {
 				for _, cfg := range []string{"-hw", "-hb", "7540-hw"} {
-					if n == seqLen && cfg != "-hw" && c.Quick() {
+					if n == seqLen && cfg != "-hw" {
 						continue
 					}
 					ok := vx.Strings(names, n, n, func(items []string) bool {
 						if !yield(c16Case{Cfg: cfg, Pre: "ok", Items: items}) {
 							return false
 						}
-						if cfg == "-hw" {
+						if cfg == "-hw" && n <= 2 {
 							return yield(c16Case{Cfg: cfg, Pre: "ok", Items: items, Burst: true})
 						}
 						return true
